@@ -78,7 +78,48 @@ def helper_shape(node) -> Optional[str]:
         return "tail"
     if len(rets) == 1 and rets[0] is body[-1]:
         return "tail"
-    return None
+    try:
+        to_single_exit(body, "__probe")
+        return "guards"  # early returns in if/else structure only: convertible to single-exit form
+    except _Unsupported:
+        return None
+
+
+class _Unsupported(Exception):
+    pass
+
+
+def _has_return(st) -> bool:
+    return any(isinstance(n, ast.Return) for n in _walk_local(st)) or isinstance(st, ast.Return)
+
+
+def to_single_exit(body: List[ast.stmt], res: str) -> List[ast.stmt]:
+    """The statement list without `return`: every `return v` becomes `res = v`, and what followed an `if` that may
+    return is moved into its branches (continuation passing), so that nothing runs after a taken return.  Only returns
+    at block level or inside if/elif/else are supported (a return inside a loop / try / with raises _Unsupported)."""
+    budget = [400]
+
+    def tx(stmts: List[ast.stmt]) -> List[ast.stmt]:
+        out: List[ast.stmt] = []
+        for i, st in enumerate(stmts):
+            budget[0] -= 1
+            if budget[0] < 0:
+                raise _Unsupported("too large")
+            if isinstance(st, ast.Return):
+                out.append(ast.copy_location(ast.Assign(targets=[ast.Name(id=res, ctx=ast.Store())], value=st.value if st.value is not None else ast.Constant(value=None)), st))
+                return out
+            if isinstance(st, ast.If) and _has_return(st):
+                rest = stmts[i + 1:]
+                b = tx(list(st.body) + rest)
+                o = tx(list(st.orelse) + rest)
+                out.append(ast.copy_location(ast.If(test=st.test, body=b or [ast.Pass()], orelse=o), st))
+                return out
+            if _has_return(st):
+                raise _Unsupported("return inside a loop / try / with")
+            out.append(st)
+        return out
+
+    return tx(list(body))
 
 
 def _method_kind(node) -> str:
@@ -164,9 +205,14 @@ def instantiate(helper: ast.FunctionDef, binds: Dict[str, ast.AST], tag: str) ->
     tr = _Rename(subst, rename)
     body = [tr.visit(st) for st in body]
     result = None
-    if body and isinstance(body[-1], ast.Return):
+    n_ret = sum(1 for st in body for n in _walk_local(st) if isinstance(n, ast.Return)) + sum(1 for st in body if isinstance(st, ast.Return))
+    if body and isinstance(body[-1], ast.Return) and not any(_has_return(st) for st in body[:-1]):
         result = body[-1].value
         body = body[:-1]
+    elif any(_has_return(st) for st in body):
+        resn = f"ret__{tag}"
+        body = [ast.Assign(targets=[ast.Name(id=resn, ctx=ast.Store())], value=ast.Constant(value=None), lineno=helper.lineno, col_offset=0)] + to_single_exit(body, resn)
+        result = ast.Name(id=resn, ctx=ast.Load())
     return pre + body, result
 
 
